@@ -87,17 +87,17 @@ type Sim struct {
 	pStall   float64
 	maxStall time.Duration
 
-	digest   uint64
-	trace    []string
-	traceOn  bool
-	Stats    map[string]int
-	Anoms    []anomaly
-	monitors []func()
-	inMon    bool
-	schedG   uint64
-	ilHash   uint64 // interleaving hash (task label, seam label) sequence
-	OnPanic  func(node int, msg string)
-	Overlap  int
+	digest     uint64
+	trace      []string
+	traceOn    bool
+	Stats      map[string]int
+	Anoms      []anomaly
+	monitors   []func()
+	inMon      bool
+	schedG     uint64
+	ilHash     uint64 // interleaving hash (task label, seam label) sequence
+	OnPanic    func(node int, msg string)
+	Overlap    int
 	endElapsed time.Duration
 	// OnTeardown hooks run on the scheduler goroutine before tasks are reaped (cancel root contexts here).
 	OnTeardown []func()
